@@ -167,6 +167,9 @@ pub struct Searcher<'a> {
     visited_dirs: HashSet<PathBuf>,
     #[cfg(unix)]
     visited_inodes: HashSet<(u64, u64)>,
+    /// Device and inode of the directories entered while following symlinks (what their paths resolve to)
+    #[cfg(unix)]
+    visited_real_dirs: HashSet<(u64, u64)>,
     lscolors: LsColors,
     dir_queue: Box<VecDeque<PathBuf>>,
     current_follow_symlinks: bool,
@@ -208,6 +211,8 @@ impl<'a> Searcher<'a> {
             visited_dirs: HashSet::new(),
             #[cfg(unix)]
             visited_inodes: HashSet::new(),
+            #[cfg(unix)]
+            visited_real_dirs: HashSet::new(),
             lscolors: LsColors::from_env().unwrap_or_default(),
             dir_queue: Box::from(VecDeque::new()),
             current_follow_symlinks: false,
@@ -637,6 +642,16 @@ impl<'a> Searcher<'a> {
         if self.current_follow_symlinks && !self.visited_dirs.insert(PathBuf::from(&canonical_path))
         {
             return Ok(());
+        }
+
+        // one directory may have several real paths (a bind mount): it is the same directory all the same
+        #[cfg(unix)]
+        if self.current_follow_symlinks {
+            if let Ok(metadata) = fs::metadata(dir) {
+                if !self.visited_real_dirs.insert((metadata.dev(), metadata.ino())) {
+                    return Ok(());
+                }
+            }
         }
 
         let canonical_depth = crate::util::calc_depth(&canonical_path);
